@@ -52,20 +52,29 @@ pub fn point(id: u32) {
         evlog::log(evlog::POINT, id as u64, 0, 0);
     }
     let mask = TARGET_MASK.load(Relaxed);
+    let mut delayed = false;
     if id < 64 && mask & (1 << id) != 0 {
         let us = TARGET_US.load(Relaxed);
         if us > 0 {
             std::thread::sleep(Duration::from_micros(us));
+            delayed = true;
         }
     }
     let intensity = INTENSITY.load(Relaxed);
-    if intensity == 0 {
-        return;
+    if intensity != 0 {
+        let r = next();
+        if r % 100 < intensity {
+            jitter(r);
+            delayed = true;
+        }
     }
-    let r = next();
-    if r % 100 >= intensity {
-        return;
+    // A second event after the delay, so that the log brackets the injected pause.
+    if delayed && LOG_POINTS.load(Relaxed) {
+        evlog::log(evlog::POINT, id as u64, 1, 0);
     }
+}
+
+fn jitter(r: u64) {
     match (r >> 8) % 10 {
         0..=4 => std::thread::yield_now(),
         5..=7 => {
